@@ -779,6 +779,14 @@ func (ev *specEnv) callExpr(e *ast.CallExpr, n *specNode) Val {
 			}
 		}
 		return x.iteVal(ev.st, c, a, b)
+	case "same":
+		a, b := arg(0), arg(1)
+		if sa, ok := a.(Sc); ok {
+			sb := b.(Sc)
+			sa, sb = ev.unify(sa, sb)
+			return boolV(mkEq(sa.T, sb.T))
+		}
+		fail("same() on composite values")
 	case "implies":
 		return boolV(mkImplies(arg(0).(Sc).T, arg(1).(Sc).T))
 	case "forall", "exists":
